@@ -786,6 +786,19 @@ func (c *Ctx) ruleJobConfigsPerJob(rule string, loadF *Func) {
 					if selField(info, src) == R.FConfigs && R.FConfigs != "" {
 						good = true
 					}
+					// cfg := q.w.configs() read once into a local (the configuration never changes after construction)
+					if id, ok := src.(*ast.Ident); ok && !good {
+						if obj := info.ObjectOf(id); obj != nil {
+							all, n := assignedOnlyFrom(f, obj, func(rhs ast.Expr, idx, cnt int) bool {
+								if sc, ok := ast.Unparen(rhs).(*ast.CallExpr); ok {
+									ce := resolveCallee(info, sc)
+									return ce.Fn != nil && ce.Fn.Name() == "configs" && ce.Recv != nil && c.isWorkerType(info.TypeOf(ce.Recv))
+								}
+								return selField(info, rhs) == R.FConfigs && R.FConfigs != ""
+							})
+							good = all && n > 0
+						}
+					}
 					c.Rep.check(good, rule, f.Short(), "job configs not loaded from the bound worker's configuration", c.P.pos(call2), "loadJobConfigs(<bound worker>.configs(), ...)",
 						f.Short()+" belongs to a queue that is bound to a worker but loads the job configs from "+types.ExprString(src)+": the worker's job id generator is not consulted, jobs without an explicit id get the default (empty) one")
 				}
